@@ -134,6 +134,11 @@ def step (st : State) (w : List String) : State × String :=
       let (r, used) := exchange (proto == "udp") qid q cs
       (st, s!"{xresStr r} used={used}")
     | _, _, _ => (st, "bad-op")
+  | ["doh", "run", qid, q, cand, skipq] =>
+    let c : Option Cand := if cand == "h" || cand == "c" then some { bad := true } else parseCand cand
+    match qid.toNat?, (if q == "-" then some none else (parseQ q).map some), c, parseBool skipq with
+    | some qid, some q, some c, some sk => (st, xresStr (dohExchange qid q sk c))
+    | _, _, _, _ => (st, "bad-op")
   | ["glue", "new", ls] =>
     match (listOf ls ",").mapM hexBytes with
     | some l => ({ st with locals := l.filterMap unmap }, "ok")
